@@ -337,6 +337,16 @@ Fixpoint connect_loose (fuel : nat) (s : st) (g : nat) (tgt : dest) : st :=
     end
   end.
 
+(* an edge leaving a no_op that is a decision: a condition that carries a test (a value, or
+   a test type that takes no argument, e.g. has_number) is a case; a condition that only
+   names the operand (or is blank) is the decision's default branch *)
+Definition noop_case (no_args : str -> bool) (d : rdec) (c : econd) (tgt : dest) : rdec :=
+  match c_value c with
+  | [] => if no_args (c_type c) then add_case no_args d (c_variable c) (c_type c) (c_value c) [Some (c_value c)] (c_cname c) tgt
+          else set_default d tgt
+  | _ => add_case no_args d (c_variable c) (c_type c) (c_value c) [Some (c_value c)] (c_cname c) tgt
+  end.
+
 (* add_exit: an edge with condition c from group g to tgt *)
 Fixpoint add_exit (fuel : nat) (s : st) (g : nat) (c : econd) (tgt : dest) : option st :=
   match fuel with
@@ -376,7 +386,7 @@ Fixpoint add_exit (fuel : nat) (s : st) (g : nat) (c : econd) (tgt : dest) : opt
           | Some s3 =>
             match nth_error (s_nodes s3) k with
             | Some n => match rn_dec n with
-                        | Some d => Some (set_node s3 k (mkRNode [] (Some (add_case no_args d (c_variable c) (c_type c) (c_value c) [Some (c_value c)] (c_cname c) tgt)) DNone))
+                        | Some d => Some (set_node s3 k (mkRNode [] (Some (noop_case no_args d c tgt)) DNone))
                         | None => None
                         end
             | None => None
@@ -388,10 +398,7 @@ Fixpoint add_exit (fuel : nat) (s : st) (g : nat) (c : econd) (tgt : dest) : opt
       | Some n =>
         match rn_dec n with
         | Some d =>
-          match c_value c with
-          | [] => Some (set_node s k (mkRNode [] (Some (set_default d tgt)) DNone))
-          | _ => Some (set_node s k (mkRNode [] (Some (add_case no_args d (c_variable c) (c_type c) (c_value c) [Some (c_value c)] (c_cname c) tgt)) DNone))
-          end
+          Some (set_node s k (mkRNode [] (Some (noop_case no_args d c tgt)) DNone))
         | None => None
         end
       | None => None
